@@ -4,6 +4,7 @@ import (
 	"go/token"
 	"go/types"
 	"sort"
+	"strings"
 
 	"golang.org/x/tools/go/ssa"
 )
@@ -19,9 +20,9 @@ type slicer struct {
 	noCallee  func(f *ssa.Function) bool // callees that are not entered
 	seen      map[ssa.Value]bool
 	order     []ssa.Value
-	control   bool // also follow the conditions selecting phi operands
-	objFlow   bool // a call on an object (interface / pointer receiver) depends on what other calls fed into that object
-	fieldStop bool // a field of a non-local struct is a root: its base pointer is not followed (provenance queries)
+	control   bool                                    // also follow the conditions selecting phi operands
+	objFlow   bool                                    // a call on an object (interface / pointer receiver) depends on what other calls fed into that object
+	fieldStop bool                                    // a field of a non-local struct is a root: its base pointer is not followed (provenance queries)
 	entered   map[*ssa.Function][]ssa.CallInstruction // call sites through which a callee was entered (parameters bind to those only)
 }
 
@@ -49,6 +50,9 @@ func (s *slicer) run(roots ...ssa.Value) *sliceResult {
 		switch x := v.(type) {
 		case *ssa.FieldAddr, *ssa.Field:
 			k := fieldKey(v)
+			if s.fieldStop && s.c.ephemeralField(k) {
+				continue // a field of a helper struct that only lives in locals: not a root, its stores were followed
+			}
 			res.fields[k] = append(res.fields[k], v)
 		case *ssa.Call:
 			n := calleeName(x.Common())
@@ -152,6 +156,11 @@ func (s *slicer) visit(v ssa.Value, depth int) {
 		s.visit(x.Index, depth)
 	case *ssa.FieldAddr:
 		if s.fieldStop && baseAlloc(x) == nil {
+			if k := fieldKey(x); s.c.ephemeralField(k) {
+				for _, st := range s.c.fieldStores()[k] {
+					s.visit(st.Val, depth)
+				}
+			}
 			return
 		}
 		s.visit(x.X, depth)
@@ -277,6 +286,12 @@ func (s *slicer) load(u *ssa.UnOp, depth int) {
 				}
 			}
 			_ = found
+			// a helper struct whose address is handed to its methods (a collector, a builder): they store into the field too
+			if k := fieldKey(fa); s.c.ephemeralField(k) {
+				for _, st := range s.c.fieldStores()[k] {
+					s.visit(st.Val, depth)
+				}
+			}
 			return
 		}
 		s.allocStores(a, depth)
@@ -408,7 +423,7 @@ func (s *slicer) param(p *ssa.Parameter, depth int) {
 	sites := s.c.callersOf(fn)
 	if es := s.entered[fn]; len(es) > 0 {
 		sites = es // entered through these call sites: bind the parameter in their context only
-		depth++ // coming back out of a callee does not consume depth
+		depth++    // coming back out of a callee does not consume depth
 	}
 	for _, site := range sites {
 		cc := site.Common()
@@ -681,4 +696,81 @@ func originsKeepPhi(v ssa.Value, keep *ssa.Phi) []ssa.Value {
 	}
 	walk(v)
 	return out
+}
+
+// ephemeralField: key names a field of a module struct type that only ever lives in local variables and parameters: the type
+// is unexported and is not (transitively) the type of a field of an exported module struct, nor of a package-level variable.
+// Such structs are bundles of locals (a collector, a builder, a session); their fields are not places where data rests
+// between calls, so provenance queries look through them.
+func (c *Ctx) ephemeralField(key string) bool {
+	i := strings.LastIndexByte(key, '.')
+	if i < 0 {
+		return false
+	}
+	return c.ephemeralTypes()[key[:i]]
+}
+
+func (c *Ctx) ephemeralTypes() map[string]bool {
+	if c.ephemeral != nil {
+		return c.ephemeral
+	}
+	longLived := map[*types.Named]bool{}
+	var mark func(t types.Type, depth int)
+	mark = func(t types.Type, depth int) {
+		if depth > 8 || t == nil {
+			return
+		}
+		switch x := t.(type) {
+		case *types.Named:
+			if longLived[x] {
+				return
+			}
+			if x.Obj().Pkg() == nil || !strings.HasPrefix(x.Obj().Pkg().Path(), modPath) {
+				return
+			}
+			longLived[x] = true
+			mark(x.Underlying(), depth+1)
+		case *types.Pointer:
+			mark(x.Elem(), depth+1)
+		case *types.Slice:
+			mark(x.Elem(), depth+1)
+		case *types.Array:
+			mark(x.Elem(), depth+1)
+		case *types.Chan:
+			mark(x.Elem(), depth+1)
+		case *types.Map:
+			mark(x.Key(), depth+1)
+			mark(x.Elem(), depth+1)
+		case *types.Struct:
+			for i := 0; i < x.NumFields(); i++ {
+				mark(x.Field(i).Type(), depth+1)
+			}
+		}
+	}
+	var all []*types.Named
+	for _, p := range c.SSAPkgs {
+		if p == nil || !strings.HasPrefix(p.Pkg.Path(), modPath) {
+			continue
+		}
+		for _, m := range p.Members {
+			switch x := m.(type) {
+			case *ssa.Type:
+				if n, ok := x.Type().(*types.Named); ok {
+					all = append(all, n)
+					if x.Object().Exported() {
+						mark(n, 0)
+					}
+				}
+			case *ssa.Global:
+				mark(x.Type(), 0)
+			}
+		}
+	}
+	c.ephemeral = map[string]bool{}
+	for _, n := range all {
+		if _, isStruct := n.Underlying().(*types.Struct); isStruct && !longLived[n] {
+			c.ephemeral[shortPkg(n.Obj().Pkg().Path())+"."+n.Obj().Name()] = true
+		}
+	}
+	return c.ephemeral
 }
